@@ -54,6 +54,16 @@ CHECKS = {
          "D (read(write) within quantum), E for plain ranges and enumerations.",
     note="Trusted: TLC, lxml XMLSchema, a hand table of unit scales for 7 converting types. E reported (not judged) for other types.",
     technique="TLC-generated boundary/threshold domain from extracted facets, schema-judged replay through real elements, TLC clause evaluation"),
+ "C12": dict(
+    category="model_checking", design_ref="DESIGN.md §4 C12",
+    text="ReadOnly.tla states the property on package observations (roles, canonical XML modulo empty attribute-less elements; slide parts "
+         "by presentation position): same parts, unchanged meaning, successive saves identical. MC_ReadOnly enumerates every order and "
+         "repetition of the accessor groups with saves in between; a seeded sample plus an all-groups order is replayed on every corpus "
+         "deck: every public property/len/iteration/index of every object reachable by introspection is read, except accessors whose own "
+         "docstring says that reading creates or is destructive; TLC compares every save with the package saved straight after opening. "
+         "A rejected traversal is bisected per accessor so the signature names the getter responsible.",
+    note="Trusted: TLC, zipfile/lxml comparison, the docstring pattern deciding 'documented as creating' (list in the evidence). Known finding: chart getters creating c:dLbls / c:dPt on read.",
+    technique="TLA+ spec of the invariant + TLC-enumerated accessor orders replayed by an introspective reader; TLC validates package observations"),
  "C13": dict(
     category="model_checking", design_ref="DESIGN.md §4 C13",
     text="Layout.tla: PhMirror (type, idx, orientation, size of the non-latent layout placeholders, document order), unique names, "
